@@ -40,6 +40,23 @@ pub struct WithOpt {
     pub d: UnitS,
     pub e: Option<Option<bool>>,
 }
+fn is_zero(x: &u32) -> bool {
+    *x == 0
+}
+/// Fields that the derive leaves out when they hold their default
+/// (`SerializeStruct::skip_field`) and fills in again when reading.
+#[derive(serde::Serialize, Deserialize, PartialEq, Debug, Clone)]
+pub struct WithSkip {
+    pub id: u8,
+    #[serde(default, skip_serializing_if = "is_zero")]
+    pub retries: u32,
+    #[serde(default, skip_serializing_if = "String::is_empty")]
+    pub name: String,
+    #[serde(default, skip_serializing_if = "Option::is_none")]
+    pub opt: Option<u8>,
+    #[serde(default, skip_serializing_if = "Vec::is_empty")]
+    pub items: Vec<i8>,
+}
 #[derive(serde::Serialize, Deserialize, PartialEq, Debug, Clone)]
 #[serde(rename_all = "kebab-case")]
 pub enum E {
@@ -162,7 +179,7 @@ fn g_tree() -> BS<Tree> {
 
 /// Visit every type of the family with its strategy.
 /// number of `visit` calls made by [`for_each_type`]
-pub const N_FAM_TYPES: usize = 48;
+pub const N_FAM_TYPES: usize = 49;
 
 pub fn for_each_type<V: TypeVisitor>(v: &mut V) {
     v.visit::<i8>("i8", ints(i8::MIN as i128, i8::MAX as i128));
@@ -209,6 +226,18 @@ pub fn for_each_type<V: TypeVisitor>(v: &mut V) {
         "WithOpt",
         (proptest::option::of(any::<u8>()), proptest::option::of(g_str()), proptest::option::of(proptest::option::of(any::<bool>())))
             .prop_map(|(a, c, e)| WithOpt { a, b: (), c, d: UnitS, e })
+            .boxed(),
+    );
+    v.visit::<WithSkip>(
+        "WithSkip",
+        (
+            any::<u8>(),
+            prop_oneof![2 => Just(0u32), 1 => any::<u32>()],
+            prop_oneof![2 => Just(String::new()), 1 => g_str()],
+            proptest::option::of(any::<u8>()),
+            vec(any::<i8>(), 0..3),
+        )
+            .prop_map(|(id, retries, name, opt, items)| WithSkip { id, retries, name, opt, items })
             .boxed(),
     );
     v.visit::<Nested>(
